@@ -3,6 +3,7 @@
   Model: Model/C10Memmap.lean (hand, tied by correspondence); dtype tables: Gen/Dtypes.lean (regenerated).
 -/
 import TdVerif.Lemmas.C10Memmap
+import TdVerif.Lemmas.C10Refresh
 import TdVerif.Gen.Dtypes
 
 namespace TdVerif.Props.C10
@@ -130,6 +131,35 @@ theorem make_memmap_merge (fs : FS) (dir : Path) (key dtype : String) (shape : L
   · intro p h1 h2
     by_cases h0 : numel shape = 0 <;> simp [Slots.write, h0, h1, h2]
 
+/-! ### refresh: a second mapping of the directory catches up with entries created through another one -/
+
+/-- **`load_memmap_` / `memmap_refresh_` = a fresh load of the directory as it is now**, for every tensordict
+    that is still in the directory (`Current`: at every level it holds, its batch size and device are the
+    directory's and each of its keys is among those a load binds — entries may have been *added* by anyone,
+    at any depth, in any number), every file-system state and every recursion budget. -/
+theorem refresh_equals_load (old : Tree) (fuel : Nat) (fs : FS) (dir : Path) (h : Current old fuel fs dir) :
+    loadInto fuel fs dir old = load fuel fs dir := refresh_eq_load_aux old fuel fs dir h
+
+/-- the history of the property: a tensordict `{obs, stats: {mean}}` is saved; a reader maps the directory; through
+    another mapping `make_memmap(("stats", "count"))` creates an entry **inside the nested node the reader already
+    holds** and fills it. A fresh load, and the reader after its refresh, both show the new entry with its content.
+    The seeded variant of the loader (children already mapped on their sub-directory are skipped) leaves the reader
+    without it — and the `memmap_()` that ends `load_memmap_` then rewrites the node's metadata from the stale key
+    set, so that the entry is gone from every later load too. -/
+theorem refresh_sees_entry_made_elsewhere :
+    let u8 (v : Nat) : Tree := .leaf "torch.uint8" [4] [v, v, v, v]
+    let t0 := Tree.node [4] "cpu" [("obs", u8 0), ("stats", .node [4] "cpu" [("mean", u8 1)])]
+    let t1 := Tree.node [4] "cpu" [("obs", u8 0), ("stats", .node [4] "cpu" [("mean", u8 1), ("count", u8 7)])]
+    let fs0 := save (fun _ => none) [] t0
+    let fs1 := writeLeaf ((makeMemmap fs0 ["stats"] "count" "torch.uint8" [4] 4).getD fs0) ["stats"] "count" [7, 7, 7, 7]
+    load 2 fs0 [] = some t0
+      ∧ load 2 fs1 [] = some t1
+      ∧ loadInto 2 fs1 [] t0 = some t1
+      ∧ loadIntoSkip 2 fs1 [] t0 = some t0
+      ∧ load 2 (save fs1 [] t0) [] = some t0 := by
+  simp [save, runTasks, runWrites, tasksTree, tasksKids, numel, load, loadEntries, loadInto, loadIntoEntries, loadIntoSkip,
+    loadIntoEntriesSkip, kid?, Slots.write, nodeMeta, metaEntry, makeMemmap, writeLeaf, zeros, List.lookup]
+
 /-- the dtype names written in meta.json are read back as the same dtype (regenerated tables) -/
 theorem dtype_string_roundtrip :
     ∀ p ∈ Gen.dtype2str, Gen.str2dtype.lookup p.2 = some p.1 := by
@@ -147,6 +177,15 @@ example : PathSafe (.lazy 0 [("0", .node [] "cpu" [("a", .leaf "torch.uint8" [1]
   intro j h
   have : j = 0 ∨ j = 1 := by simp at h; omega
   rcases this with rfl | rfl <;> rfl
+-- non-vacuity of `Current`: the reader of `refresh_sees_entry_made_elsewhere` is still in the directory after the entry was added
+example :
+    let u8 (v : Nat) : Tree := .leaf "torch.uint8" [4] [v, v, v, v]
+    let t0 := Tree.node [4] "cpu" [("obs", u8 0), ("stats", .node [4] "cpu" [("mean", u8 1)])]
+    let fs0 := save (fun _ => none) [] t0
+    let fs1 := writeLeaf ((makeMemmap fs0 ["stats"] "count" "torch.uint8" [4] 4).getD fs0) ["stats"] "count" [7, 7, 7, 7]
+    Current t0 2 fs1 [] := by
+  simp [Current, CurrentKids, save, runTasks, runWrites, tasksTree, tasksKids, numel, load, loadEntries, Slots.write, nodeMeta, metaEntry,
+    makeMemmap, writeLeaf, zeros]
 /-- the excluded point: key "a.memmap" as a node beside a leaf "a" -/
 example : ¬ PathSafe (.node [] "None" [("a", .leaf "torch.uint8" [] [1]), ("a.memmap", .node [] "None" [])]) := by
   simp [PathSafe, entryName]
